@@ -9,7 +9,7 @@ fn main() {
     let col: Vec<String> = vec![String::from("a"), String::from("b"), String::from("c")];
     let it = col.con_iter();
     let mut b = it.buffered_iter(2);
-    let k1 = b.next();
-    drop(b);
-    if let Some(x) = k1 { let _n = x.values.count(); }
+    let r = it.next();
+    let k2 = b.next();
+    if let Some(x) = r { let _y = x.clone(); }
 }
